@@ -128,7 +128,8 @@ Proof.
       - (* the source has ended *)
         exfalso. assert (j = jsrc) by (eapply (same_role_same_index W); eauto). subst. congruence.
       - (* a worker still scanning: impossible, all workers have ended *)
-        exfalso. simpl in Hrl. destruct (layout_worker_inv W _ _ Hrl) as [Hk ->]. rewrite (Hworkers i Hk) in Hj. discriminate. }
+        exfalso. simpl in Hrl. destruct (layout_worker_inv W _ _ Hrl) as [Hk ->]. rewrite (Hworkers i Hk) in Hj. discriminate.
+      - exfalso. assert (j = jsrc) by (eapply (same_role_same_index W); eauto). subst. congruence. }
   rewrite (msum_mult0 (bufW owed_val) (chans n) id) in Hone.
   2:{ intros ch Hch. apply elem_of_list_lookup in Hch. destruct Hch as (c & Hc).
       unfold bufW. apply msum_mult0. intros v Hv.
@@ -204,7 +205,8 @@ Proof.
       - exfalso. simpl in Hrl. destruct (layout_worker_inv W _ _ Hrl) as [Hk ->]. rewrite (Hworkers i Hk) in Hj. discriminate.
       - pose proof (Hidle j (CSend v) Hj (or_introl eq_refl)) as Hw. simpl in Hw. rewrite Hw. apply multiplicity_empty.
       - pose proof (Hidle j (LWrite v) Hj (or_intror eq_refl)) as Hw. simpl in Hw. rewrite Hw. apply multiplicity_empty.
-      - apply tok_verr_mult; assumption. }
+      - apply tok_verr_mult; assumption.
+      - exfalso. assert (j = jsrc) by (eapply (same_role_same_index W); eauto). subst. congruence. }
   rewrite (msum_mult0 (bufW tok_val) (chans n) id) in Hone.
   2:{ intros ch Hch. apply elem_of_list_lookup in Hch. destruct Hch as (c & Hc).
       unfold bufW. apply msum_mult0. intros v Hv.
@@ -255,7 +257,8 @@ Proof.
       - exfalso. simpl in Hrl. destruct (layout_worker_inv W _ _ Hrl) as [Hk ->]. rewrite (Hworkers i Hk) in Hj. discriminate.
       - apply tok_res_mult; assumption.
       - apply tok_res_mult; assumption.
-      - pose proof (Hidle j (DEmit v) Hj eq_refl) as Hw. simpl in Hw. rewrite Hw. apply multiplicity_empty. }
+      - pose proof (Hidle j (DEmit v) Hj eq_refl) as Hw. simpl in Hw. rewrite Hw. apply multiplicity_empty.
+      - exfalso. assert (j = jsrc) by (eapply (same_role_same_index W); eauto). subst. congruence. }
   rewrite (msum_mult0 (bufW tok_val) (chans n) id) in Hone.
   2:{ intros ch Hch. apply elem_of_list_lookup in Hch. destruct Hch as (c & Hc).
       unfold bufW. apply msum_mult0. intros v Hv.
